@@ -29,12 +29,17 @@ type c06Params struct {
 	ServerFirst bool `json:"server_first,omitempty"`
 	// ChainPad: extra certificates in the server's chain so that the Certificate message exceeds one record
 	ChainPad int `json:"chain_pad,omitempty"`
+	// EOFJoin: the transport reports end-of-stream together with the last bytes. Hold > 0: after the handshake the
+	// client's data pauses for two seconds Hold bytes into its first record (5 = right behind the header) while
+	// the server reads with one-second deadlines and simply tries again after a timeout
+	EOFJoin bool `json:"eof_join,omitempty"`
+	Hold    int  `json:"hold,omitempty"`
 }
 
 func (c06) ID() string    { return "C06" }
 func (c06) Level() string { return "exploration" }
 func (c06) Rule() string {
-	return "each case: suite x dynamic-record-sizing on/off x transport segmentation (whole / random 1..available / one byte per transport read) x a sequence of write sizes per direction drawn around the interesting boundaries (0, 1, the 1208-byte ramp, 16383/16384/16385, multiples of 16384 up to 4x; runs of 1..40 writes without payload) x a cycle of read-buffer sizes from 1 byte to 64 KiB. The client writes, half-closes (CloseWrite), the server reads to EOF, writes, closes, the client reads to EOF; in a third of the cases the server writes first, straight after its Finished; in a sixth the server's certificate chain makes the Certificate message 15-45 KB. Oracle: every Write returns its length; concatenated reads equal concatenated writes followed by io.EOF; the wire monitor opens every record: plaintext <= 16384, ciphertext <= 16384+2048. distinct = distinct parameter vectors; non-trivial = both directions carried data and ended in EOF"
+	return "each case: suite x dynamic-record-sizing on/off x transport segmentation (whole / random 1..available / one byte per transport read) x a sequence of write sizes per direction drawn around the interesting boundaries (0, 1, the 1208-byte ramp, 16383/16384/16385, multiples of 16384 up to 4x; runs of 1..40 writes without payload) x a cycle of read-buffer sizes from 1 byte to 64 KiB. The client writes, half-closes (CloseWrite), the server reads to EOF, writes, closes, the client reads to EOF; in a third of the cases the server writes first, straight after its Finished; in a sixth the server's certificate chain makes the Certificate message 15-45 KB; the transport may report end-of-stream together with the last bytes; the client's data may pause for two seconds a few bytes into its first record while the server reads with one-second deadlines and tries again after each timeout. Oracle: every Write returns its length; concatenated reads equal concatenated writes followed by io.EOF; the wire monitor opens every record: plaintext <= 16384, ciphertext <= 16384+2048. distinct = distinct parameter vectors; non-trivial = both directions carried data and ended in EOF"
 }
 func (c06) Components() (real, stub []string) {
 	return []string{"tlcp.Conn client+server (instrumented): Write/Read/CloseWrite/Close, record splitting and reassembly"},
@@ -93,6 +98,10 @@ func drawC06(src *vs.Src) *c06Params {
 		p.RBuf = append(p.RBuf, c06Bufs[src.Intn(len(c06Bufs))])
 	}
 	p.ServerFirst = src.Bool(1, 3)
+	p.EOFJoin = src.Bool(1, 3)
+	if !p.ServerFirst && src.Bool(1, 4) {
+		p.Hold = pickInt(src, []int{3, 5, 6, 40, 200})
+	}
 	if src.Bool(1, 6) {
 		p.ChainPad = 40 + src.Intn(80) // Certificate message of about 15-45 KB
 	}
@@ -112,12 +121,29 @@ type c06Side struct {
 	CloseErr error
 }
 
-func readToEnd(ep EP, bufs []int, st *c06Side) {
+func readToEnd(ep EP, bufs []int, st *c06Side) { readToEndRetry(ep, bufs, st, false) }
+
+// readToEndRetry: with retry, every Read has a one-second deadline and a timeout just means "try again".
+func readToEndRetry(ep EP, bufs []int, st *c06Side, retry bool) {
 	i := 0
+	timeouts := 0
 	for {
 		b := make([]byte, bufs[i%len(bufs)])
 		i++
+		if retry {
+			ep.SetReadDeadline(vs.Now().Add(time.Second))
+		}
 		n, err := ep.Read(b)
+		if retry && err != nil && isTimeout(err) && timeouts < 20 {
+			// (twenty timeouts in a row without a byte: the connection is not coming back)
+			timeouts++
+			st.Reads++
+			st.Got = append(st.Got, b[:n]...)
+			continue
+		}
+		if n > 0 {
+			timeouts = 0
+		}
 		st.Reads++
 		st.Got = append(st.Got, b[:n]...)
 		if err != nil {
@@ -167,6 +193,7 @@ func (c06) Run(c *Case, src *vs.Src) *Result {
 	}
 	pair := NewPair(TLCP, env, cc, sc, "c", "s", "client:1", "server:443")
 	pair.Pipe.C.Seg, pair.Pipe.S.Seg = p.Seg, p.Seg
+	pair.Pipe.C.EOFJoin, pair.Pipe.S.EOFJoin = p.EOFJoin, p.EOFJoin
 	c2s, s2c := mkPayloads(src, p.C2S, 1), mkPayloads(src, p.S2C, 100)
 	var cs, ss c06Side
 	w.Go("client", func() {
@@ -190,6 +217,11 @@ func (c06) Run(c *Case, src *vs.Src) *Result {
 		if p.ServerFirst {
 			writeAll(pair.S, s2c, &ss)
 			readToEnd(pair.S, p.RBuf, &ss)
+		} else if p.Hold > 0 {
+			pair.Pipe.S.ArmHold(p.Hold, 2*time.Second)
+			readToEndRetry(pair.S, p.RBuf, &ss, true)
+			pair.S.SetReadDeadline(time.Time{})
+			writeAll(pair.S, s2c, &ss)
 		} else {
 			readToEnd(pair.S, p.RBuf, &ss)
 			writeAll(pair.S, s2c, &ss)
